@@ -217,4 +217,18 @@ PROPS = {
                 ">=1 reply; distinct = the whole case.",
         "assumptions": ["on plain HTTP an error after the first reply only requires an intact response"],
     },
+    "C14": {
+        "pkg": "c14",
+        "stages": [{"run": "^TestProp$", "quick": (6000, 4), "thorough": (60000, 16)},
+                   {"run": "^TestPropReal$", "quick": (400, 4), "thorough": (5000, 16)}],
+        "technique": "property-based testing (rapid): generated request headers and handler header/trailer sets (incl. -bin values and reserved names) x transport; handler-side metadata and client-side headers/trailers (raw, gRPC-web trailer frame, real grpc-go client) compared with what was sent",
+        "level_text": "Generated-input search: inbound headers (mixed-case names, multi-valued, -bin values padded and unpadded) must reach the handler's incoming metadata exactly; "
+                      "handler header/trailer metadata must reach the client byte-exact on gRPC (in-process and real grpc-go client), gRPC-web and HTTP transcoding, for successful and failing "
+                      "RPCs; reserved keys set by the handler must not change status, message, details, content type or encoding seen by the client. Exploration only.",
+        "level_note": "Key/value alphabets are those net/http and grpc-go transmit unchanged (visible ASCII without leading/trailing space; metadata keys [a-z0-9_.-]).",
+        "rule": "rapid draws transport, 0-3 request headers (x-prefixed names, 1-3 values, -bin with arbitrary bytes padded or not), handler header and trailer sets of 0-4 keys "
+                "(plain, -bin, multi-valued, reserved names with forged values), SetHeader vs SendHeader, trailer set early or late, and success or failure. Non-trivial = a -bin value whose length "
+                "is not a multiple of 3, a multi-valued key, a reserved key, or a failing RPC; distinct = the whole case.",
+        "assumptions": ["trailers are not expected on plain HTTP transcoding"],
+    },
 }
